@@ -301,3 +301,12 @@ CHECKS["C18"]["text"] = CHECKS["C18"]["text"].replace("Tie: the FULL executable 
 CHECKS["C18"]["text"] = CHECKS["C18"]["text"].replace("internal watches never follow links.", "internal watches never follow links; dirChange as a whole delivers nothing but Creates for entries of the listing it read that had not been seen, whatever the environment answers (dir_change_reports_only_new).")
 
 CHECKS["C17"]["text"] = CHECKS["C17"]["text"].replace("(full_remove_releases);", "(full_remove_releases); Remove of a watched directory releases the internal watches of its entries (full_remove_dir_releases_entries);")
+
+CHECKS["C17"]["text"] = CHECKS["C17"]["text"].replace(
+    "Partial twice:",
+    "API calls are not atomic against the reader goroutine, which the atomic-call model cannot express: RACE SESSIONS let the reader "
+    "handle a file-system change completely exactly before the k-th system call (open / close / kevent with changes) of Remove(dir), "
+    "Add(dir), Close(), Remove(entry), Remove(file), for every k, and check the statement itself (no descriptor and no table entry once "
+    "every listed path is removed, and after Close). They found F18 (an event handled during Close leaked every descriptor; repaired; the "
+    "repaired behaviour is a theorem: full_close_releases_queue_gone), F17 and F19 (known findings); F16's schedule is the theorem "
+    "close_during_add_leaks. Partial twice:")
